@@ -39,6 +39,9 @@ THEOREMS = {
                                          "Tr.calcWith_attained_fwd", "Tr.calcWith_attained_rev", "Tr.AdmFwd.ctxLe", "Tr.AdmRev.ctxLe", "Tr.C03_optimal", "Tr.C04_optimal", "Tr.C01_with",
                                          "Tr.nv_hypotheses", "Tr.nv_hypotheses_complete", "Tr.nv_results"]),
     "C11": ("TrVerif.Props.C11", ["Tr.C11_connSet", "Tr.C11_restrict", "Tr.C11_answers", "Tr.C11_route"]),
+    "C12": ("TrVerif.Props.C12", ["Tr.C12_index_transparent_route", "Tr.C12_index_transparent_accessibility", "Tr.fwdScan_from_start", "Tr.revScan_from_start",
+                                  "Tr.singleReverse_eq0", "Tr.before_start_early", "Tr.before_start_late", "Tr.fwdIndex_spec", "Tr.revIndex_spec", "Tr.C18_index_safe", "Tr.C07_scan_start"]),
+    "C16": ("TrVerif.Props.C16", ["Tr.C16_connections", "Tr.C16_reverse_footpaths", "Tr.C16_sorted_lists", "Tr.C16_trip_lists", "Tr.C16_scenario_set"]),
     "C13": ("TrVerif.Props.C13", ["Tr.C13_history_independent", "Tr.C13_cache_kind_irrelevant", "Tr.C13_structure"]),
     "C14": ("TrVerif.Props.C14", ["Tr.C14_interleavings", "Tr.C14_progress", "Tr.C14_structure"]),
     "C15": ("TrVerif.Props.C15", ["Tr.C15_answers", "Tr.C15_all", "Tr.C15_schedules", "Tr.C15_old_state_irrelevant", "Tr.C15_status", "Tr.C15_structure", "Tr.C15_order"]),
@@ -159,9 +162,15 @@ _reg("C11", "PROOF (full, over the model): Tr.C11_answers / Tr.C11_route - route
      "under the all-inclusive scenario on the dataset with the excluded trips removed (filter commutes with both stable sorts; the calculation reads trips only "
      "through the connection set). " + _M + "; the metamorphic relation is also run on the implementation with physically deleted trips.",
      "Lean 4 theorem + differential correspondence + metamorphic run on the implementation")
-_reg("C12", "NO THEOREM: the shift relation is evaluated on the implementation (dataset and request shifted by generated offsets inside [0,32h), answers compared "
-     "field by field) and on the Lean model through the correspondence. Testing on generated inputs, not a proof.",
-     "metamorphic relation on implementation and model (no theorem)")
+_reg("C12", "PROOF (partial): Tr.C12_index_transparent_route / Tr.C12_index_transparent_accessibility - the hour index, the one place where absolute hour boundaries (x:00, 24:00, the slots next "
+     "to 0:00 and 32:00: the mechanism this property is anchored in) enter a calculation, is TRANSPARENT: for every dataset, scenario and query with the requested time in [0, 32 h) and "
+     "non-negative router walks, the route / accessibility answer EQUALS the answer of the same calculation with every scan started at the head of the sorted list (Tr.calculateSingle0 / "
+     "Tr.calculateAllNodes0: no index, no hour arithmetic at all). What the index skips leaves before the requested departure resp. arrives after the (requested or chosen) arrival "
+     "(Tr.fwdIndex_spec, Tr.revIndex_spec, all 32 slots incl. the guarded ones), and the first test of a scan step discards such a connection without touching the tables "
+     "(Tr.fwdScan_from_start, Tr.revScan_from_start); the hours handed to the look-ups are re-read from the source (Tr.C07_scan_start). NOT proved: that the index-free calculation commutes "
+     "with a translation of all clock values (every guard compares differences of clock values; the tests against -1 / MAX_INT / 0 need the in-range hypotheses). That half is evaluated as a "
+     "metamorphic relation on the implementation and on the model for generated offsets (hour marks, 24:00, next to 0:00 / 32:00). " + _M + ".",
+     "Lean 4 theorems (hour-index transparency for all calculations) + metamorphic relation on implementation and model")
 _reg("C13", "PROOF (full, over the server model): Tr.C13_history_independent - the answer to a request after any sequence of earlier requests equals the answer of the "
      "initial server, for both cache kinds and whether or not the set was cached; Tr.C13_structure states the source facts it rests on (regenerated: no static state "
      "in the calculation, cache keyed by scenario). Histories are also replayed against the implementation and the model.",
@@ -178,10 +187,15 @@ _reg("C15", "PROOF (over the refresh model): Tr.C15_answers - after /updateCache
      "status recomputed, call order). The loaders are assumed faithful (C16). Tie: in-process refresh histories (TransitData::update* of the harness vs the model, and vs a fresh TransitData) "
      "and the real ASan+UBSan binary refreshed over HTTP vs a freshly started one vs the Lean calculation model. Use of freed memory is only observable on the binary.",
      "Lean 4 theorem (state equality after refresh) + regenerated facts + in-process and real-binary refresh histories")
-_reg("C16", "NO THEOREM for the loader (the byte level of Cap'n Proto is trusted, the field mapping is not modelled in Lean): generated datasets are written as cache directories "
-     "with the repository's own schemas, loaded by the real server binary (ASan+UBSan) behind a scripted walking-router stub; every HTTP answer is compared with the in-memory "
-     "calculation on the same dataset and with the Lean model, and every itinerary is checked against the dataset by the C01 oracle.",
-     "differential: real binary on generated cache files vs in-memory calculation vs Lean model (no theorem)")
+_reg("C16", "PROOF (partial: the data layer only) + differential run of the real binary: the model's Dataset is the record-level content of the cache files; Tr.C16_connections - a trip yields one "
+     "connection per consecutive stop pair, the i-th leaving stop i of the path at the i-th departure time, reaching stop i+1 at the (i+1)-th arrival time, with the boarding flag of stop i, the "
+     "alighting flag of stop i+1 and sequence i+1; Tr.C16_reverse_footpaths - reverse footpaths are exactly the footpaths read backwards; Tr.C16_sorted_lists - both global lists hold exactly "
+     "the connections of all trips, ordered by the two comparators; Tr.C16_trip_lists - the per-trip lists are the trip's connections in hop / reverse hop order; Tr.C16_scenario_set - a scenario's "
+     "set is the filter of both lists by the scenario's admission test with both hour indexes built from the filtered lists. NOT modelled, hence NOT proved: the bytes (Cap'n Proto decoding is "
+     "trusted base) and the loaders' own code (field mapping, uuid resolution, JSON segment distances). That the real loaders produce this data layer is decided by running: generated datasets are "
+     "written as cache directories with the repository's own schemas, loaded by the real server binary (ASan+UBSan) behind a scripted walking-router stub; every HTTP answer is compared with the "
+     "in-memory calculation on the same dataset and with the Lean model, and every itinerary is checked against the dataset by the C01 oracle.",
+     "Lean 4 theorems about the model's data layer + differential: real binary on generated cache files vs in-memory calculation vs Lean model")
 _reg("C17", "PROOF (partial: decision logic only): over every assignment of a fetch outcome (read n items / missing / failed after n items) to every cache kind, Tr.C17_ready_iff, "
      "C17_names_empty, C17_missing_file_not_ready, C17_every_request_data_error, C17_ready_serves - the status is READY exactly when all seven needed collections are non-empty, otherwise it "
      "names a collection that really is empty, a missing needed file never gives READY, a non-READY server answers every request after every history with data_error and the documented "
